@@ -472,12 +472,24 @@ def stress_task(wid, seed, params):
 
 
 def dispatch(wid, seed, params):
+    if params.get('big'):
+        # atomic stores / loads in pages that another thread's memory.grow has just added (the large-memory harness of C18): every
+        # store is read back by the storing thread
+        from . import c18
+        r = c18.big_task(wid, seed, params)
+        for v in r['violations']:
+            v['signature'] = v['signature'].replace('c18:', 'c16:')
+        r['classes'] = collections.Counter(dict(('atomics_during_grow_' + k, n) for k, n in r['classes'].items()))
+        return r
     if params.get('stress'):
         return stress_task(wid, seed, params)
     return f1.case_task(wid, seed, params)
 
 
 def replay(rp):
+    if rp.get('kind') == 'big':
+        from . import c18
+        return c18.replay(rp)
     if rp.get('kind') == 'stress':
         for _ in range(5):          # concurrency failures are probabilistic: several attempts
             if run_stress(rp['case'])[0]:
@@ -491,11 +503,11 @@ def plan(tier, seed):
         seq = [{'maker': 'c16_seq', 'ncases': 12, 'ccs': ['gcc-O0', 'clang-O2', 'gcc-O2', 'clang-O0', 'clang-O1-san', 'gcc-O1-be', 'clang-O2-be'], 'nsteps': 160,
                 'shrink_budget': 20, 'reduce_budget': 10} for _ in range(8)]
         st = [{'stress': True, 'ncases': 14, 'builds': ['gcc-O2', 'clang-O2', 'clang-tsan', 'gcc-O0', 'gcc-O2-ndebug', 'clang-tsan-ndebug', 'gcc-O2-be', 'clang-O2-be']} for _ in range(8)]
-        return seq + st
+        return seq + st + [{'big': True, 'ncases': 3, 'builds': ['clang-tsan', 'gcc-O2', 'clang-asan']} for _ in range(2)]
     seq = [{'maker': 'c16_seq', 'ncases': 200, 'ccs': ['gcc-O0', 'clang-O2', 'gcc-O2', 'clang-O0', 'clang-O1-san', 'gcc-O3', 'clang-O3', 'gcc-O1-be', 'clang-O2-be', 'gcc-O0-be'],
             'nsteps': 400, 'shrink_budget': 30, 'reduce_budget': 20} for _ in range(24)]
     st = [{'stress': True, 'ncases': 300, 'builds': ['gcc-O2', 'clang-O2', 'clang-tsan', 'gcc-O0', 'gcc-O2-ndebug', 'clang-tsan-ndebug', 'gcc-O2-be', 'clang-O2-be']} for _ in range(16)]
-    return seq + st
+    return seq + st + [{'big': True, 'ncases': 30, 'builds': ['clang-tsan', 'gcc-O2', 'clang-asan']} for _ in range(4)]
 
 
 def run(tier, seed):
